@@ -67,6 +67,25 @@ def check_merge_granularity(model: Model, report: Report, rule: str) -> None:
                     report.fail(rule, fn.qualname, f"merge-granularity:{name}", f"'{name}' collects the children of every {ast.unparse(f.target)} of the loop at line {f.lineno} and is merged into the queue by one draw after the loop (line {d.lineno}): the relative order of different siblings' children is then fixed, so RFC-permitted orderings that put a later sibling's child before an earlier sibling's child are never produced (the mode is not exhaustive)", file=fn.file, line=d.lineno)
                 else:
                     recognised += 1
+    # the population of a draw is sized with the CURRENT length of what it interleaves: `[iter(X)] * n` needs n == len(X)
+    # at the draw; a length measured before a loop that rebinds X goes stale (entries beyond it are silently dropped)
+    for n_ in walk_own(fn.node):
+        if not (isinstance(n_, ast.BinOp) and isinstance(n_.op, ast.Mult)):
+            continue
+        lst, cnt = (n_.left, n_.right) if isinstance(n_.left, ast.List) else (n_.right, n_.left) if isinstance(n_.right, ast.List) else (None, None)
+        if lst is None or len(lst.elts) != 1 or not (isinstance(lst.elts[0], ast.Call) and ast.unparse(lst.elts[0].func) == "iter" and lst.elts[0].args and isinstance(lst.elts[0].args[0], ast.Name)):
+            continue
+        xname = lst.elts[0].args[0].id
+        if isinstance(cnt, ast.Call) and ast.unparse(cnt.func) == "len" and cnt.args and isinstance(cnt.args[0], ast.Name) and cnt.args[0].id == xname:
+            continue
+        if isinstance(cnt, ast.Name):
+            loops_here = [f for f in loops_of(n_) if isinstance(f, (ast.For, ast.While))]
+            x_rebound_in = [f for f in loops_here if any(isinstance(m, ast.Assign) and any(isinstance(t, ast.Name) and t.id == xname for t in m.targets) for m in ast.walk(f))]
+            defs = [m for m in walk_own(fn.node) if isinstance(m, ast.Assign) and any(isinstance(t, ast.Name) and t.id == cnt.id for t in m.targets)]
+            for f in x_rebound_in:
+                outside = [m for m in defs if f not in loops_of(m)]
+                if outside:
+                    report.fail(rule, fn.qualname, f"stale-length:{cnt.id}", f"the draw at line {n_.lineno} takes {cnt.id} slots for '{xname}', but {cnt.id} is measured at line {outside[0].lineno}, outside the loop at line {f.lineno} that rebinds '{xname}': after the first rebuild the queue is longer than {cnt.id} and its tail is dropped from the result", file=fn.file, line=n_.lineno)
     if recognised:
         report.ok(rule, fn.qualname, "every interleaving draw merges the children of one node", detail={"draws": len(draws), "feeds": recognised})
     elif not any(f.rule == rule for f in report.findings):
